@@ -31,6 +31,7 @@ from .lin import Lin, _lin
 from .repo import src, chain
 
 MAX_ROWS = 20000
+EXPLORE_BUDGET_S = 240  # wall-clock limit of one exploration; beyond it the fragment is reported as unrecognised (fail closed)
 MAX_INLINE_DEPTH = 3
 
 
@@ -1053,10 +1054,13 @@ def explore(repo, stmts, env, *, integer=True, self_cls=None, feasibility=True, 
     rows = []
     stack = [(dict(initial) if initial else {}, [])]
     n_runs = 0
+    import time as _time
+
+    deadline = _time.time() + EXPLORE_BUDGET_S
     while stack:
         val, order = stack.pop()
         n_runs += 1
-        if n_runs > max_rows * 4:
+        if n_runs > max_rows * 4 or (n_runs % 64 == 0 and _time.time() > deadline):
             raise Unrecognised("decision tree too large")
         ex = (executor_cls or Executor)(repo, val, integer=integer, self_cls=self_cls, **kw)
         e = dict(env)
